@@ -40,6 +40,7 @@ REGEXES = [
 EXPRS += [r.strip() for r in REGEXES]
 
 DOCS = [
+    'Text.\n\n    @param x: a\n@return: b', 'Text.\n\n  @type x: int\n@param x: a\n    @note: n\n@see: s', 'Summary\n\n        @ivar a: x\n    @ivar b: y\n@ivar c: z',
     '@type ghost: int', 'Summary.\n\n@type ghost: C{int}\n@type x: str', ':type ghost: int', 'Doc.\n\n:type ghost: `C`\n:ivar real: r\n:type real: int', '@ivar declared: d\n@type undeclared: int',
     '概要\n==\n\ntext\n\n???\n---\n\nmore', 'Intro.\n\nПример\n======\n\n  - item', '!!!\n===\n', ':parameters: not a list\n:return: r', ':Parameters:\n  one\n\n  two\n',
     'plain words here', '', ' ', 'Summary line.\n\n    Details.\n', 'L{C} and C{x} I{y} B{z} U{http://u}', 'L{unclosed', '@param x: the x\n@type x: int\n@return: r\n@rtype: C',
